@@ -167,6 +167,7 @@ def pChunk : TP ChunkReply := do
       | "ueof" => pure End.ueof
       | "reset" => pure End.reset
       | "stall" => pure End.stall
+      | "cancel" => pure End.cancel
       | _ => failure : TP End)
     pure (.body src cut en)
   | _ => failure
@@ -227,7 +228,7 @@ def showErr : Err → String
   | .manifest => "manifest" | .notfound => "notfound" | .http => "http" | .unauthorized => "unauthorized"
   | .net => "net" | .auth => "auth" | .digestFormat => "digest-format" | .directStatus => "direct-status"
   | .noLocation => "no-location" | .deadline => "deadline" | .maxRetries => "max-retries"
-  | .digestMismatch => "digest-mismatch"
+  | .digestMismatch => "digest-mismatch" | .canceled => "canceled"
 
 def showOutcome : Outcome → String
   | .ok _ => "ok"
